@@ -198,6 +198,21 @@ Proof.
     apply Forall_replace_nth; auto. apply Hf. eapply Forall_nth; eauto.
   - destruct (nth_error st i); exact H.
   - destruct (nth_error st i); exact H.
+  - destruct (nth_error st i) as [t|] eqn:Ei; [|exact H]. destruct (nth_error st j) as [tj|] eqn:Ej; [|exact H].
+    unfold remove_at.
+    destruct (split_at update push size t None k) as [t1 t23] eqn:E1.
+    destruct (split_at update push size t23 None 1) as [t2 t3] eqn:E2.
+    destruct (split_at_heapS t None k _ _ (Forall_nth _ _ _ _ H Ei) E1) as (H1 & H23 & _).
+    destruct (split_at_heapS t23 None 1 _ _ H23 E2) as (H2 & H3 & _).
+    assert (HS1 : Forall HeapS (replace_nth i (merge update push t1 None t3 None) st))
+      by (apply Forall_replace_nth; auto; apply merge_heapS; auto).
+    destruct (item t2) as [x|]; [|exact HS1].
+    destruct (nth_error (replace_nth i (merge update push t1 None t3 None) st) j) as [u|] eqn:Eu; [|exact HS1].
+    destruct (next_prio ps) as [p ps1]. simpl.
+    apply Forall_replace_nth; auto. unfold insert_at.
+    destruct (split_at update push size u None k2) as [l r] eqn:ES.
+    destruct (split_at_heapS u None k2 l r (Forall_nth _ _ _ _ HS1 Eu) ES) as (Hl & Hr & _).
+    apply merge_heapS; auto. apply merge_heapS; simpl; auto.
 Qed.
 
 Lemma run_heapS ops : forall st ps, Forall HeapS st -> Forall HeapS (fst (fst (run update push size modify elem agg st ps ops))).
